@@ -69,7 +69,9 @@ static void drop_slot(int k) {
     if (z1 == k || z2 == k) z1 = z2 = -1;
     S[k] = NULL;
 }
-static void o_out(enum cc_stat st, void *out) { o_stat(st); if (st == CC_OK) o(" out=%llu", VAL(out)); }
+static int noout;   /* noout=1 on an operation with an optional out-pointer: NULL is passed, no out= is printed */
+static void o_out(enum cc_stat st, void *out) { o_stat(st); if (st == CC_OK && !noout) o(" out=%llu", VAL(out)); }
+#define OUTP(p) (noout ? NULL : (p))
 static enum cc_stat make(Cmd *c, CC_Stack **out) {
     CC_StackConf conf; cc_stack_conf_init(&conf);
     conf.capacity = kv_u64(c, "cap", conf.capacity);
@@ -80,6 +82,7 @@ static enum cc_stat make(Cmd *c, CC_Stack **out) {
 }
 
 static void do_op(Cmd *c) {
+    noout = kv_u64(c, "noout", 0) == 1 && (is_op(c, "pop") || is_op(c, "it_replace") || is_op(c, "zit_replace"));
     int k = (int)kv_u64(c, "o", 0), to = (int)kv_u64(c, "to", 1);
     if (k < 0 || k >= NSLOT) k = 0;
     if (to < 0 || to >= NSLOT) to = 1;
@@ -116,15 +119,15 @@ static void do_op(Cmd *c) {
             enum cc_stat st = cc_stack_zip_iter_next(&zit, &o1, &o2);
             o_stat(st); if (st == CC_OK) o(" out=%llu out2=%llu", VAL(o1), VAL(o2));
         } else if (is_op(c, "zit_replace")) {
-            enum cc_stat st = cc_stack_zip_iter_replace(&zit, PTR(pos_u64(c, 0)), PTR(pos_u64(c, 1)), &o1, &o2);
-            o_stat(st); if (st == CC_OK) o(" out=%llu out2=%llu", VAL(o1), VAL(o2));
+            enum cc_stat st = cc_stack_zip_iter_replace(&zit, PTR(pos_u64(c, 0)), PTR(pos_u64(c, 1)), OUTP(&o1), OUTP(&o2));
+            o_stat(st); if (st == CC_OK && !noout) o(" out=%llu out2=%llu", VAL(o1), VAL(o2));
         } else o("st=- badop");
     } else if (is_op(c, "it_new")) {
         if (!s) { it_slot = -1; o("st=- noobj"); } else { cc_stack_iter_init(&it, s); it_slot = k; o("st=-"); }
     } else if (!strncmp(c->op, "it_", 3)) {
         if (it_slot < 0) o("st=- noiter");
         else if (is_op(c, "it_next")) { enum cc_stat st = cc_stack_iter_next(&it, &out); o_out(st, out); }
-        else if (is_op(c, "it_replace")) { enum cc_stat st = cc_stack_iter_replace(&it, PTR(pos_u64(c, 0)), &out); o_out(st, out); }
+        else if (is_op(c, "it_replace")) { enum cc_stat st = cc_stack_iter_replace(&it, PTR(pos_u64(c, 0)), OUTP(&out)); o_out(st, out); }
         else o("st=- badop");
     } else if (is_op(c, "mk_new") || is_op(c, "mk_new_default")) {
         if (S[to]) o("st=- slotbusy");
@@ -137,7 +140,7 @@ static void do_op(Cmd *c) {
     } else if (!s) { o("st=- noobj");
     } else if (is_op(c, "drop")) { cc_stack_destroy(s); drop_slot(k); o("st=-");
     } else if (is_op(c, "push")) { o_stat(cc_stack_push(s, PTR(pos_u64(c, 0))));
-    } else if (is_op(c, "pop")) { enum cc_stat st = cc_stack_pop(s, &out); o_out(st, out);
+    } else if (is_op(c, "pop")) { enum cc_stat st = cc_stack_pop(s, OUTP(&out)); o_out(st, out);
     } else if (is_op(c, "peek")) { enum cc_stat st = cc_stack_peek(s, &out); o_out(st, out);
     } else if (is_op(c, "size")) { o("st=- out=%zu", cc_stack_size(s));
     } else if (is_op(c, "map")) { cc_stack_map(s, fn_visit); o("st=- "); o_cb();
